@@ -18,8 +18,10 @@ mod rng;
 mod runner;
 mod scen_bigram;
 mod scen_build;
+mod scen_corpus;
 mod scen_dict;
 mod scen_image;
+mod scen_mecab;
 mod scen_model;
 mod scen_worker;
 mod world;
@@ -42,6 +44,8 @@ fn scenario(id: &str) -> Option<Box<dyn Scenario>> {
         "C15" => Some(Box::new(scen_model::ModelRoundTripScenario)),
         "C16" => Some(Box::new(scen_model::SmallDicScenario)),
         "C13" => Some(Box::new(scen_worker::ReorderScenario)),
+        "C19" => Some(Box::new(scen_corpus::CorpusScenario)),
+        "C20" => Some(Box::new(scen_mecab::MecabScenario)),
         _ => None,
     }
 }
